@@ -18,7 +18,7 @@ theorem compareModules_deletedService {o : Orders} {frm to : Module} {n : String
 theorem compareModules_removedMethod {o : Orders} {frm to : Module} {n fn : String} {s t : Service}
     (hn : n ∈ o.services) (hs : lookupSvc frm.services n = some s) (ht : lookupSvc to.services n = some t)
     (hfn : fn ∈ s.functions) (hord : fn ∈ o.functions n) (hgone : fn ∉ t.functions) :
-    Diag.removedMethod (baseName frm.path) n fn ∈ compareModules o frm to := by
+    Diag.removedMethod frm.path n fn ∈ compareModules o frm to := by
   apply mem_compareModules_service hn hs
   have hname := (lookupSvc_some hs).2
   simp only [compareService, hname, ht, compareFunctions, List.mem_filterMap, List.mem_filter]
@@ -61,13 +61,24 @@ theorem compareModules_typeChanged {o : Orders} {frm to : Module} {n : String} {
   have hl : lookupField s.fields x.id = some f := hid ▸ lookupField_of_mem hwf hf
   simp [compareField, hl, hty, htname]
 
-/-! ### the run: a diagnostic of a changed file is printed unless the run aborts -/
+/-! ### the run: a diagnostic of a changed file is printed -/
 
 theorem run_reports {o : Path → Orders} {old new : Tree} {cs : List Change} (hna : NoAbort old new cs)
     {c : Change} {frm to : Module} (hc : c ∈ cs) (hfrm : lookupModule old c.file = some frm)
     (hto : toModule new c = some to) {d : Diag} (hd : d ∈ compareModules (o c.file) frm to) :
     ∃ ds, run o old new cs = some ds ∧ d ∈ ds :=
   ⟨_, run_of_noAbort hna, (mem_run_iff (run_of_noAbort hna)).2 ⟨c, frm, to, hc, hfrm, hto, hd⟩⟩
+
+/-- From the tree diff on: every diagnostic of the comparison of a changed / deleted / renamed
+file's old version is printed. -/
+theorem thriftbreak_reports {o : Path → Orders} {old new : Tree} {diff : List DiffEntry}
+    (hs : Snapshot old new diff) {e : DiffEntry} {frm to : Module} (he : e ∈ diff)
+    (hfrm : lookupModule old e.src = some frm) (hto : toModule new (changeOf e) = some to) {d : Diag}
+    (hd : d ∈ compareModules (o e.src) frm to) : ∃ ds, thriftbreak o old new diff = some ds ∧ d ∈ ds := by
+  unfold thriftbreak
+  have hc : changeOf e ∈ diff.map changeOf := List.mem_map.2 ⟨e, he, rfl⟩
+  have hf := changeOf_file e
+  exact run_reports (noAbort_of_snapshot hs) hc (by rw [hf]; exact hfrm) hto (by rw [hf]; exact hd)
 
 /-- A path of one component is its own base name (a file in the repository root). -/
 theorem baseName_root (x : String) : baseName [x] = [x] := rfl
